@@ -188,7 +188,10 @@ Example ex_publish_wf :
 Proof. vm_compute. auto. Qed.
 
 Example ex_publish_depth : payload_depth_ok ex_publish.
-Proof. unfold payload_depth_ok. repeat constructor; vm_compute; repeat constructor. Qed.
+Proof.
+  apply Forall_forall. intros v Hv. apply PeanoNat.Nat.ltb_lt. revert v Hv. apply forallb_forall.
+  vm_compute. reflexivity.
+Qed.
 
 (** the kwargs-without-args rule on it: Arguments stays (as nil) at position 4 *)
 Example ex_publish_list :
